@@ -416,11 +416,14 @@ typedef struct GMap {
 typedef GMap IntMap;
 typedef GMap UlMap;
 static inline unsigned long GMap_size(GMap *m) { return m->size; }
-static inline int *GMap_at(GMap *m, long k)
+/* operator[]: the bookkeeping is a function returning which cell is meant; the cell itself is selected by the macro, so that
+ * `map1[a] = map2[b]` copies between NAMED fields (a pointer returned from a function on both sides of an assignment made the
+ * solver run out of memory on a one-line change of order_worker: seeded change C16-1). */
+static inline _Bool GMap_touch(GMap *m, long k)
 {
   if (k == m->gkey) {
     if (!m->gpresent) { m->gpresent = 1; m->gval = 0; m->size++; }
-    return &m->gval;
+    return 1;
   }
   _Bool present = nondet_bool();
   int v = nondet_int();
@@ -431,8 +434,9 @@ static inline int *GMap_at(GMap *m, long k)
   }
   if (!present) { m->size++; v = 0; }
   m->other = v;
-  return &m->other;
+  return 0;
 }
+#define GMap_at(m, k) (GMap_touch((m), (k)) ? &(m)->gval : &(m)->other)
 #define IntMap_at(m, k) GMap_at((m), (long)(k))
 #define UlMap_at(m, k) GMap_at((m), (long)(k))
 static inline GMap GMap_ctor0_(long gkey) { GMap m; m.size = 0; m.gkey = gkey; m.gpresent = 0; m.gval = 0; m.other = 0; m.inv_pool = 0; m.gpos = 0; return m; }
